@@ -20,38 +20,53 @@ def _pg():
     return SimulateOde, Transition, Event, ode_utils
 
 
-def transition(tr, equation=None):
+def transition(tr, equation=None, objs=None):
+    """objs: name -> ODEVariable for models whose states are declared as ODEVariable objects; a transition may then name a
+    state by the object instead of by its ID string (tr["obj_ref"] says which ends do)."""
     _S, Transition, _E, _u = _pg()
     kw = {}
     if equation is not None:
         kw["equation"] = equation
     mag = ir.mag_str(tr["mag"])
+    ref = tr.get("obj_ref") or {}
+
+    def nm(end):
+        v = tr[end]
+        return objs[v] if (objs and ref.get(end) and v in objs) else v
     if tr["kind"] == "T":
-        return Transition(origin=tr["o"], destination=tr["d"], transition_type="T", magnitude=mag, **kw)
+        return Transition(origin=nm("o"), destination=nm("d"), transition_type="T", magnitude=mag, **kw)
     if tr["kind"] == "D":
-        return Transition(origin=tr["o"], transition_type="D", magnitude=mag, **kw)
+        return Transition(origin=nm("o"), transition_type="D", magnitude=mag, **kw)
     if tr["kind"] == "B":
         if tr.get("birth_by", "destination") == "origin":
-            return Transition(origin=tr["d"], transition_type="B", magnitude=mag, **kw)
-        return Transition(destination=tr["d"], transition_type="B", magnitude=mag, **kw)
+            return Transition(origin=nm("d"), transition_type="B", magnitude=mag, **kw)
+        return Transition(destination=nm("d"), transition_type="B", magnitude=mag, **kw)
     raise ValueError(tr)
 
 
-def event_object(ev, route):
+def event_object(ev, route, objs=None):
     _S, _T, Event, _u = _pg()
     rate = ir.to_str_top(ev["rate"])
     if route in ("event", "add_event"):
-        return Event(rate=rate, transition_list=[transition(t) for t in ev["trans"]])
+        return Event(rate=rate, transition_list=[transition(t, objs=objs) for t in ev["trans"]])
     if route == "event_eq":
-        ts = [transition(t, rate if i == 0 else None) for i, t in enumerate(ev["trans"])]
+        ts = [transition(t, rate if i == 0 else None, objs) for i, t in enumerate(ev["trans"])]
         return Event(transition_list=ts)
     if route in ("trans", "add_trans"):
         assert len(ev["trans"]) == 1
-        return transition(ev["trans"][0], rate)
+        return transition(ev["trans"][0], rate, objs)
     if route in ("legacy", "add_legacy"):
         assert len(ev["trans"]) == 1
-        return transition(ev["trans"][0], rate)
+        return transition(ev["trans"][0], rate, objs)
     raise ValueError(route)
+
+
+def odevar_objects(m):
+    """States declared as ODEVariable(ID, human readable name) - only for plain declarations (no ranges, no limits)."""
+    if m.get("state_style") != "odevar" or any("range" in d or d.get("lims") is not None for d in m["state_decl"]):
+        return None
+    from pygom import ODEVariable
+    return {d["name"]: ODEVariable(d["name"], "compartment " + d["name"]) for d in m["state_decl"]}
 
 
 def allowed_routes(ev):
@@ -64,9 +79,11 @@ def allowed_routes(ev):
     return routes
 
 
-def state_argument(m):
+def state_argument(m, objs=None):
     decl = m["state_decl"]
     style = m.get("state_style", "list")
+    if objs:
+        return [objs[d["name"]] for d in decl]
     names = []
     for d in decl:
         names.append(d["range"] if "range" in d else d["name"])
@@ -130,6 +147,7 @@ def build(m, routes=None, perm=None, backend="lambda", as_ode=False, container="
     routes = list(routes) if routes is not None else ["event"] * n_e
     perm = list(perm) if perm is not None else list(range(n_e))
     derived = [(d["name"], ir.to_str_top(d["expr"])) for d in m.get("derived", [])] or None
+    objs = odevar_objects(m)
     odes = [Transition(origin=o["state"], equation=ir.to_str_top(o["expr"]), transition_type="ODE")
             for o in m.get("odes", [])]
     ctor_event, ctor_trans, ctor_bd, later = [], [], [], []
@@ -154,10 +172,10 @@ def build(m, routes=None, perm=None, backend="lambda", as_ode=False, container="
             ev, r = events[ei], routes[ei]
             if pool is not None and r not in ("trans", "add_trans"):
                 if (ei, r) not in pool:
-                    pool[(ei, r)] = event_object(ev, r)
+                    pool[(ei, r)] = event_object(ev, r, objs)
                 obj = pool[(ei, r)]
             else:
-                obj = event_object(ev, r)
+                obj = event_object(ev, r, objs)
             if r in ("event", "event_eq", "trans"):
                 ctor_event.append(obj)
                 o_event.append(ei)
@@ -171,7 +189,7 @@ def build(m, routes=None, perm=None, backend="lambda", as_ode=False, container="
             else:
                 later.append((r, obj))
                 o_later.append(ei)
-    model = SimulateOde(state_argument(m), param_argument(m), derived_param=derived,
+    model = SimulateOde(state_argument(m, objs), param_argument(m), derived_param=derived,
                         event=_container(ctor_event, container, False), transition=_container(ctor_trans, container, False),
                         birth_death=_container(ctor_bd, container, "bd"), ode=_container(odes, container, "ode"))
     if backend == "lambda":
